@@ -638,6 +638,20 @@ func init() {
 		if s, ok := ex.nativeSprintf(f, a[1]); ok {
 			msg = s
 		}
+		// %w keeps the wrapped error reachable through Unwrap (errors.Is / errors.As)
+		if strings.Contains(f, "%w") {
+			for _, e := range ex.sliceElems(a[1]) {
+				iv, ok := e.(IfaceV)
+				if !ok || iv.T == nil {
+					continue
+				}
+				if types.Implements(iv.T, errorIface) {
+					if w := ex.wrapErrorValue(msg, iv); w != nil {
+						return w, true
+					}
+				}
+			}
+		}
 		return ex.errorValue(msg), true
 	})
 	reg("fmt.Sprintf", func(ex *Exec, g *G, fn *ssa.Function, a []Value) (Value, bool) {
@@ -1165,4 +1179,24 @@ func (ex *Exec) deepEqual(a, b Value, depth int) *Term {
 		return ts.Bool(x.IsNil() && y.IsNil())
 	}
 	return ex.valEq(a, b)
+}
+
+var errorIface = types.Universe.Lookup("error").Type().Underlying().(*types.Interface)
+
+// wrapErrorValue builds a *fmt.wrapError{msg, err}.
+func (ex *Exec) wrapErrorValue(msg string, inner IfaceV) Value {
+	pkg := ex.w.prog.ImportedPackage("fmt")
+	if pkg == nil {
+		return nil
+	}
+	t := pkg.Type("wrapError")
+	if t == nil {
+		return nil
+	}
+	st := ex.newAgg(2)
+	st.E[0] = StrV{S: msg}
+	st.E[1] = inner
+	cell := ex.newAgg(1)
+	cell.E[0] = st
+	return IfaceV{T: types.NewPointer(t.Type()), V: Ptr{C: cell}}
 }
